@@ -49,7 +49,7 @@ def run(ctx):
     from .c18 import _Sub
     from . import c10, c11, c12, c13
 
-    sub = _Sub(ctx, ("E2.tag-by-scheme", "E2.diagonal", "E2-A.dispatch", "E2.dispatch", "E5.w"))
+    sub = _Sub(ctx, ("E2.tag-by-scheme", "E2.diagonal", "E2-A.dispatch", "E2.dispatch", "E5.w", "E6.flag", "E4.valid"))
     for m_ in (c10, c11, c12, c13):
         m_.run(sub)
     ctx.assume("hash-to-curve with distinct DSTs behaves as independent random oracles (cryptographic assumption)")
